@@ -63,6 +63,9 @@ CHECKS = {
  "C19": ("model_checking", "deviation-bounded exploration of SolOut answer histories (stateless DFS over callback indices) with a protocol automaton",
          "The default answer Continue is deviated to Interrupt / ModifiedSolution(unchanged) / ModifiedSolution(doubled) at every callback index of the actual run of each of the six low-level solvers, three problems, both directions; all histories with <= 2 (quick) / 3 (thorough) deviations are executed and checked against the protocol automaton and the all-Continue baseline (bit-identical no-op, exact doubling where IEEE scaling is exact).",
          "exact doubling demanded only for explicit methods on the linear homogeneous problem with atol=0; the environment is sealed at Interrupt so any later ode/jac/events call is counted", "DESIGN.md §3 C19", "E2"),
+ "C20": ("model_checking", "exhaustive differential enumeration: every case is run through the Rust API and through the built Python extension and compared bit for bit; every sparsity pattern up to 3x3 (4x4 thorough) plus all unions of <= 3 diagonals for n=5,6,8",
+         "The harness emits the case list (six methods x problems x option sets x Jacobian sources) with the Rust results as hex-encoded doubles; py/c20.py replays each case through ivp.solve_ivp of the extension module built from the working tree with Python callables performing the same floating-point operations, and compares t, y layout (n,m), events, status mapping, counters, sol(t) inside/outside the span, args propagation, constant vs callable Jacobian; for every enumerated sparsity pattern the result with jac_sparsity must be bitwise equal to the one without (and to Rust) and the RHS calls per Jacobian must lie between max-row-count+1 and n+1.",
+         "trusts CPython float arithmetic (IEEE double, no contraction) and the tooling venv's numpy/scipy; right-hand sides use only + - *", "DESIGN.md §3 C20", "E5"),
 }
 PENDING_REASON = "check not yet implemented in this revision of /verif (see DESIGN.md §6 for the order of work); not claimed until its machinery exists"
 
@@ -84,7 +87,7 @@ def main():
         })
     m = {
         "version": 1,
-        "setup_cmd": "cd /verif/harness && CARGO_NET_OFFLINE=true CARGO_TARGET_DIR=/verif/.target cargo build --release --offline",
+        "setup_cmd": "cd /verif/harness && CARGO_NET_OFFLINE=true CARGO_TARGET_DIR=/verif/.target cargo build --release --offline && cd /repo && CARGO_NET_OFFLINE=true CARGO_TARGET_DIR=/verif/.target-py PYO3_PYTHON=/opt/veriftools/pyvenv/bin/python cargo build --offline --features python --lib",
         "hooks": {
             "guard": "--cfg ivp_verif",
             "enable": "no hooks are needed: every observation point is reachable through the public API (IVP, SolOut, solver builders, Solution, Matrix, lu_decomp/lin_solve, the Python module); checks build /repo as a plain path dependency",
@@ -95,6 +98,7 @@ def main():
         "engines": [
             {"name": "E1", "path": "harness/src/util.rs", "serves_properties": [], "kind_free_text": "exhaustive mixed-radix lattice enumerator over configurations of the real API with trace monitors"},
             {"name": "E2", "path": "harness/src/env.rs", "serves_properties": [], "kind_free_text": "deviation-bounded exploration of environment answers (RHS faults, SolOut flags, unit impulses) at every interface-call index"},
+            {"name": "E5", "path": "py/c20.py", "serves_properties": ["C20"], "kind_free_text": "binding differential: Rust results (hex doubles) vs the Python extension module built from the working tree"},
             {"name": "E4", "path": "harness/src/tableau.rs", "serves_properties": ["C02", "C07"], "kind_free_text": "rooted-tree enumeration and (dense) order conditions evaluated on the tableau extracted from the running code"},
             {"name": "E3", "path": "harness/src/c17.rs", "serves_properties": ["C17"], "kind_free_text": "stateright explicit-state BFS/DFS over the real ivp::Matrix with a dense reference model"},
         ],
